@@ -47,6 +47,8 @@ def menu_db() -> Dict[str, Any]:
         {"name": "utf8_2", "dct": std("A_UTF8STRING", 16)},
         {"name": "i8", "dct": std("A_INT32", 8)},
         {"name": "badenc", "dct": std("A_ASCIISTRING", 16, "2C")},  # an encoding that is illegal for strings
+        {"name": "Speed", "dct": U8},  # two names that differ in case only; a reference by short name means exactly one of them
+        {"name": "SPEED", "dct": std("A_UINT32", 16)},
         {"name": "asc2", "dct": std("A_ASCIISTRING", 16)},
         {"name": "leadasc", "dct": {"k": "LEAD", "base": "A_ASCIISTRING", "bits": 8}},
         {"name": "mmasc", "dct": {"k": "MINMAX", "base": "A_ASCIISTRING", "min": 0, "max": 4, "term": "ZERO"}},
@@ -60,6 +62,7 @@ def menu_db() -> Dict[str, Any]:
         {"kind": "REQUEST", "name": "rq_badenc", "params": [P("VALUE", "s", dop="badenc")]},
         {"kind": "REQUEST", "name": "rq_sf", "params": [P("VALUE", "f", dop="SF2")]},
         {"kind": "REQUEST", "name": "rq_bz", "params": [P("VALUE", "b", dop="bmin2")]},
+        {"kind": "REQUEST", "name": "rq_case", "params": [P("VALUE", "v", dop="SPEED", snref=True)]},
         {"kind": "REQUEST", "name": "rq_asc2", "params": [P("VALUE", "s", dop="asc2")]},
         {"kind": "REQUEST", "name": "rq_leadasc", "params": [P("VALUE", "s", dop="leadasc")]},
         {"kind": "REQUEST", "name": "rq_mmasc", "params": [P("VALUE", "s", dop="mmasc")]},
@@ -242,6 +245,7 @@ MENU: List[Tuple[str, Callable[[], Any]]] = [
     ("load-unresolvable-snref", lambda: _load_summary(ambiguous_snref_db())),
     # control: a mode-insensitive valid operation
     ("encode-valid", lambda: menu_objs()["rq_v8"].encode(v=7)),
+    ("encode-valid-snref-among-names-differing-in-case", lambda: menu_objs()["rq_case"].encode(v=0x1234)),
     # a decode state that was constructed earlier (possibly under another mode) is used after the flip
     ("build-decode-state", lambda: _build_state()),
     ("decode-invalid-utf8-with-stored-state", lambda: _decode_with_stored_state()),
@@ -256,7 +260,7 @@ MENU: List[Tuple[str, Callable[[], Any]]] = [
 MENU_NAMES = [n for n, _ in MENU]
 CLI_OPS = {"cli-no-strict-list", "cli-no-strict-failing-tool", "cli-strict-failing-tool", "cli-strict-bad-db", "cli-no-strict-bad-db"}
 NEUTRAL_OPS = {"build-decode-state"}
-DOWNGRADABLE = set(MENU_NAMES) - {"encode-valid"} - CLI_OPS - NEUTRAL_OPS
+DOWNGRADABLE = set(MENU_NAMES) - {"encode-valid", "encode-valid-snref-among-names-differing-in-case"} - CLI_OPS - NEUTRAL_OPS
 
 
 def baseline_main() -> None:
